@@ -91,6 +91,7 @@ struct World
   std::vector<std::unique_ptr<Handle>> handles;
   std::vector<std::pair<TimeNs, TimeNs>> windows;
   TimeNs sdk_start = 0;
+  size_t nadd      = 0;  // `add` operations so far: the overload used rotates with it (all overloads must record the same)
 
   std::string ts(common::SystemTimestamp t) const
   {
@@ -321,21 +322,54 @@ static std::string handle_met(const std::vector<std::string> &t)
       bool dbl  = h.kind[1] == 'd';
       if (std::llabs(v) > (dbl ? 1048576LL : 1099511627776LL)) return "bad-op";
       double dv = static_cast<double>(v) / 1024.0;
-      if (a == 0)
-      {
-        if (h.cl) h.cl->Add(static_cast<uint64_t>(v));
-        else if (h.cd) h.cd->Add(dv);
-        else if (h.ul) h.ul->Add(static_cast<int64_t>(v));
-        else h.ud->Add(dv);
-      }
-      else
-      {
-        with_attrs(a, [&](const common::KeyValueIterable &kv) {
+      // the API has four overloads per instrument (value / value+context / value+attributes / value+attributes+context);
+      // which one is used rotates with the operation count - they must all record the same measurement
+      const size_t ov = w.nadd++;
+      opentelemetry::context::Context octx{};
+      auto add_kv = [&](const common::KeyValueIterable &kv, bool with_ctx) {
+        if (with_ctx)
+        {
+          if (h.cl) h.cl->Add(static_cast<uint64_t>(v), kv, octx);
+          else if (h.cd) h.cd->Add(dv, kv, octx);
+          else if (h.ul) h.ul->Add(static_cast<int64_t>(v), kv, octx);
+          else h.ud->Add(dv, kv, octx);
+        }
+        else
+        {
           if (h.cl) h.cl->Add(static_cast<uint64_t>(v), kv);
           else if (h.cd) h.cd->Add(dv, kv);
           else if (h.ul) h.ul->Add(static_cast<int64_t>(v), kv);
           else h.ud->Add(dv, kv);
-        });
+        }
+      };
+      if (a == 0)
+      {
+        std::map<std::string, common::AttributeValue> none;
+        switch (ov % 4)
+        {
+          case 0:
+            if (h.cl) h.cl->Add(static_cast<uint64_t>(v));
+            else if (h.cd) h.cd->Add(dv);
+            else if (h.ul) h.ul->Add(static_cast<int64_t>(v));
+            else h.ud->Add(dv);
+            break;
+          case 1:
+            if (h.cl) h.cl->Add(static_cast<uint64_t>(v), octx);
+            else if (h.cd) h.cd->Add(dv, octx);
+            else if (h.ul) h.ul->Add(static_cast<int64_t>(v), octx);
+            else h.ud->Add(dv, octx);
+            break;
+          case 2:
+            add_kv(common::KeyValueIterableView<decltype(none)>(none), false);
+            break;
+          default:
+            add_kv(common::KeyValueIterableView<decltype(none)>(none), true);
+            break;
+        }
+      }
+      else
+      {
+        with_attrs(a, [&](const common::KeyValueIterable &kv) { add_kv(kv, ov % 2 == 1); });
       }
       outs.push_back("ok");
     }
